@@ -19,7 +19,8 @@ import (
 // Frozen anchors (confirmed by reading the pinned tree; each must resolve):
 //   onchain.ParamsToTxScript            the single entry through which every back-end obtains the redeem script
 //   onchain.Get{Preimage,Csv,Cooperative}Witness   the three witness constructors
-//   swap.(*SwapData).getTimelockPolicy  the chain/version -> CSV table
+//   the chain/version -> CSV table       found structurally: the function whose result's CSV field is stored into
+//                                        OpeningParams.CSV (today swap.(*SwapData).getTimelockPolicy, which is the fallback anchor)
 //   swap.OpeningParams                  carrier of the four script parameters
 // Everything else (the function that holds the builder chain, its parameter
 // order, helper functions such as h2b) is found by value flow, not by name.
@@ -397,10 +398,15 @@ func c02Slot(w *an.World, v ssa.Value, fr *c02Frame) c02Elem {
 			return c02Elem{Kind: "bad", Why: "script parameter is computed with operator " + x.Op.String() + " instead of being passed unchanged"}
 		case *ssa.Const:
 			return c02Elem{Kind: "bad", Why: "constant " + x.String() + " where a parameter slot is expected"}
+		case *ssa.Call:
+			return c02SlotThroughCallee(w, x, 0, fr)
 		case *ssa.Extract:
 			c, ok := x.Tuple.(*ssa.Call)
-			if !ok || w.Info(c).Name != c02HexDecode || x.Index != 0 {
+			if !ok {
 				return c02Elem{Kind: "unknown", Why: "script parameter comes from " + c02Describe(w, x.Tuple)}
+			}
+			if w.Info(c).Name != c02HexDecode || x.Index != 0 {
+				return c02SlotThroughCallee(w, c, x.Index, fr)
 			}
 			s, sfr := c02Up(c.Call.Args[0], fr)
 			ld, ok := s.(*ssa.UnOp)
@@ -421,6 +427,47 @@ func c02Slot(w *an.World, v ssa.Value, fr *c02Frame) c02Elem {
 		}
 	}
 	return c02Elem{Kind: "unknown", Why: "resolution too deep"}
+}
+
+// c02SlotThroughCallee resolves result #idx of a call to an in-module helper
+// (e.g. a one-line wrapper around hex.DecodeString) by resolving what the
+// helper returns, with the helper's parameters bound to the call's arguments.
+// `return <nil>, err` exits carry no value. All value returns must resolve to
+// the same slot.
+func c02SlotThroughCallee(w *an.World, c *ssa.Call, idx int, fr *c02Frame) c02Elem {
+	callee := c.Call.StaticCallee()
+	if callee == nil || !w.InModule(callee) || callee.Blocks == nil || fr.depth() >= 6 {
+		return c02Elem{Kind: "unknown", Why: "script parameter comes from " + c02Describe(w, c)}
+	}
+	for x := fr; x != nil; x = x.parent {
+		if x.fn == callee {
+			return c02Elem{Kind: "unknown", Why: "recursive helper " + w.FuncName(callee)}
+		}
+	}
+	child := &c02Frame{fn: callee, site: c, parent: fr}
+	ei := an.ErrResultIndex(c)
+	var res *c02Elem
+	for _, r := range an.Returns(callee) {
+		if idx >= len(r.Results) {
+			continue
+		}
+		if ei >= 0 && ei != idx && ei < len(r.Results) && !an.IsNilConst(r.Results[ei]) && an.IsNilConst(r.Results[idx]) {
+			continue
+		}
+		e := c02Slot(w, r.Results[idx], child)
+		if e.Kind != "slot" {
+			return e
+		}
+		if res != nil && res.Slot != e.Slot {
+			return c02Elem{Kind: "unknown", Why: "helper " + w.FuncName(callee) + " returns different values on different paths (" + res.Slot + ", " + e.Slot + ")"}
+		}
+		ee := e
+		res = &ee
+	}
+	if res == nil {
+		return c02Elem{Kind: "unknown", Why: "helper " + w.FuncName(callee) + " returns no value"}
+	}
+	return *res
 }
 
 func c02Describe(w *an.World, v ssa.Value) string {
@@ -607,11 +654,32 @@ func c02ArrayElems(v ssa.Value) ([]ssa.Value, bool) {
 			return nil, false
 		}
 	}
+	// `s := make([]T, n)` followed by `s[i] = v`: index stores through the slice value
+	if sl.Referrers() != nil {
+		for _, r := range *sl.Referrers() {
+			y, ok := r.(*ssa.IndexAddr)
+			if !ok || y.X != sl {
+				continue // a use of the finished slice
+			}
+			i, ok := an.ConstInt(y.Index)
+			if !ok || i < 0 || i >= at.Len() || y.Referrers() == nil {
+				return nil, false
+			}
+			for _, rr := range *y.Referrers() {
+				st, ok := rr.(*ssa.Store)
+				if !ok || st.Addr != y || out[i] != nil || st.Block() != sl.Block() {
+					return nil, false // element read back, assigned twice or assigned conditionally
+				}
+				out[i] = st.Val
+			}
+		}
+	}
 	for _, e := range out {
-		if e == nil {
+		if e == nil && al.Comment != "makeslice" {
 			return nil, false
 		}
 	}
+	// for make(): an element that is never assigned stays nil (reported as a nil entry)
 	return out, true
 }
 
@@ -647,6 +715,10 @@ func c02List(w *an.World, v ssa.Value, depth int) ([]string, string) {
 		}
 		var out []string
 		for _, e := range elems {
+			if e == nil {
+				out = append(out, "ε") // make()d element never assigned: a nil item
+				continue
+			}
 			out = append(out, c02Item(w, e))
 		}
 		if out == nil {
@@ -672,7 +744,27 @@ func c02List(w *an.World, v ssa.Value, depth int) ([]string, string) {
 
 // c02Item describes one witness item.
 func c02Item(w *an.World, v ssa.Value) string {
+	return c02ItemIn(w, v, &c02Frame{fn: c02ParentOf(v)}, 0)
+}
+
+func c02ParentOf(v ssa.Value) *ssa.Function {
+	if in, ok := v.(ssa.Instruction); ok {
+		return in.Parent()
+	}
+	if p, ok := v.(*ssa.Parameter); ok {
+		return p.Parent()
+	}
+	return nil
+}
+
+// c02ItemIn describes one witness item; fr is the call path from the witness
+// constructor (root frame) into in-module helpers that build an item.
+func c02ItemIn(w *an.World, v ssa.Value, fr *c02Frame, depth int) string {
+	if depth > 6 {
+		return "?too deep"
+	}
 	for i := 0; i < 8; i++ {
+		v, fr = c02Up(v, fr)
 		switch x := v.(type) {
 		case *ssa.ChangeType:
 			v = x.X
@@ -685,7 +777,7 @@ func c02Item(w *an.World, v ssa.Value) string {
 			}
 			return "?const " + x.String()
 		case *ssa.Slice:
-			if b, ok := c02ConstBytes(w, x, &c02Frame{fn: x.Parent()}, 0); ok {
+			if b, ok := c02ConstBytes(w, x, fr, 0); ok {
 				if len(b) == 0 {
 					return "ε"
 				}
@@ -698,11 +790,11 @@ func c02Item(w *an.World, v ssa.Value) string {
 			continue
 		case *ssa.Call:
 			if w.Info(x).Name == "builtin:append" && len(x.Call.Args) == 2 {
-				base := c02Item(w, x.Call.Args[0])
+				base := c02ItemIn(w, x.Call.Args[0], fr, depth+1)
 				if strings.HasPrefix(base, "?") {
 					return base
 				}
-				b, ok := c02ConstBytes(w, x.Call.Args[1], &c02Frame{fn: x.Parent()}, 0)
+				b, ok := c02ConstBytes(w, x.Call.Args[1], fr, 0)
 				if !ok {
 					return "?append of non-constant bytes"
 				}
@@ -710,6 +802,14 @@ func c02Item(w *an.World, v ssa.Value) string {
 					return "const:" + hex.EncodeToString(b)
 				}
 				return base + "‖" + hex.EncodeToString(b)
+			}
+			// an in-module helper that builds the item (e.g. appends the hash type)
+			callee := x.Call.StaticCallee()
+			if callee != nil && w.InModule(callee) && callee.Blocks != nil {
+				rets := an.Returns(callee)
+				if len(rets) == 1 && len(rets[0].Results) == 1 {
+					return c02ItemIn(w, rets[0].Results[0], &c02Frame{fn: callee, site: x, parent: fr}, depth+1)
+				}
 			}
 			return "?call " + w.Info(x).Name
 		}
@@ -953,10 +1053,17 @@ func c02TmplName(t c02Elem) string {
 func c02R3(c *an.Check, entry *ssa.Function, paramsIdx, csvIdx int) {
 	w := c.W
 	// (a) the table
-	tp := w.Func("swap", "(*SwapData).getTimelockPolicy")
+	// the table function is found structurally: the in-module function whose
+	// result's CSV field is stored into OpeningParams.CSV (today getTimelockPolicy)
+	tp := c02PolicyFn(w)
 	if tp == nil {
-		c.Anchor("swap.(*SwapData).getTimelockPolicy does not resolve")
+		tp = w.Func("swap", "(*SwapData).getTimelockPolicy")
+	}
+	tpName := ""
+	if tp == nil {
+		c.Anchor("the timelock table (the function whose result's CSV field feeds OpeningParams.CSV; swap.(*SwapData).getTimelockPolicy) does not resolve")
 	} else {
+		tpName = w.FuncName(tp)
 		type key struct {
 			chain string
 			ver   int64
@@ -995,14 +1102,14 @@ func c02R3(c *an.Check, entry *ssa.Function, paramsIdx, csvIdx int) {
 				}
 			}
 			if chain == "" {
-				c.Unknown("C02.R3", "getTimelockPolicy successful return", pos, "cannot tell for which chain this policy is returned; facts: "+an.DescribeFacts(facts))
+				c.Unknown("C02.R3", "timelock table successful return", pos, "cannot tell for which chain this policy is returned; facts: "+an.DescribeFacts(facts))
 				continue
 			}
 			k := key{chain, ver}
 			if chain == `"btc"` {
 				k.ver = 0 // one CSV for every supported Bitcoin version
 			}
-			cons := "getTimelockPolicy " + strings.Trim(chain, `"`)
+			cons := tp.Name() + " " + strings.Trim(chain, `"`)
 			if k.ver != 0 {
 				cons += fmt.Sprintf(" v%d", k.ver)
 			}
@@ -1022,7 +1129,7 @@ func c02R3(c *an.Check, entry *ssa.Function, paramsIdx, csvIdx int) {
 	}
 
 	// (b) call sites of the anchor
-	n := 0
+	n, nBtc, nLiq := 0, 0, 0
 	for _, fn := range prodFuncs(w) {
 		for _, call := range callsMatching(w, fn, func(ci an.CallInfo) bool { return ci.Static == entry }) {
 			cc, ok := call.(*ssa.Call)
@@ -1051,12 +1158,24 @@ func c02R3(c *an.Check, entry *ssa.Function, paramsIdx, csvIdx int) {
 				c.Bad("C02.R3", cons, pos, "a Bitcoin script is built with "+detail+" instead of the constant 1008")
 			case recv == "LiquidOnChain" && style != "paramsCSV":
 				c.Bad("C02.R3", cons, pos, "a Liquid script is built with "+detail+" instead of the per-swap CSV of its OpeningParams (protocol 7 uses 10080, legacy 60)")
+			case style != "const1008" && style != "paramsCSV":
+				c.Unknown("C02.R3", cons, pos, "a script is built outside the two back-end types with "+detail+"; cannot tell for which chain")
 			default:
 				c.OK("C02.R3", cons, pos, detail)
 			}
+			switch recv {
+			case "BitcoinOnChain":
+				nBtc++
+			case "LiquidOnChain":
+				nLiq++
+			}
 		}
 	}
-	c.AtLeast("C02.R3", "production call sites of ParamsToTxScript", n, 9)
+	// floor on semantic instances: each back-end builds the script somewhere (9 sites today;
+	// a shared helper may legitimately reduce the number of call sites)
+	c.AtLeast("C02.R3", "call sites of ParamsToTxScript in BitcoinOnChain methods", nBtc, 1)
+	c.AtLeast("C02.R3", "call sites of ParamsToTxScript in LiquidOnChain methods", nLiq, 1)
+	_ = n
 
 	// (c) who writes OpeningParams.CSV
 	nw := 0
@@ -1067,11 +1186,37 @@ func c02R3(c *an.Check, entry *ssa.Function, paramsIdx, csvIdx int) {
 		}
 		nw++
 		t := w.Term(st.Val)
-		c.Decide(strings.HasPrefix(t, "call:func:(*swap.SwapData).getTimelockPolicy#0") && strings.HasSuffix(t, "timelockPolicy.CSV"),
-			"C02.R3", w.FuncName(fn)+" store OpeningParams.CSV", w.Pos(st.Pos()),
-			"CSV taken from "+t, "OpeningParams.CSV is set from "+t+", not from the CSV of the swap's timelock policy")
+		cons, pos := w.FuncName(fn)+" store OpeningParams.CSV", w.Pos(st.Pos())
+		if tpName != "" && strings.HasPrefix(t, "call:func:"+tpName+"#0") && strings.HasSuffix(t, ".CSV") {
+			c.OK("C02.R3", cons, pos, "CSV taken from "+t)
+			continue
+		}
+		// through a helper / a local: look at the sources
+		ss := w.Sources(st.Val, an.FlowOpts{IntoCallees: true})
+		allPolicy, allConst := len(ss.Leaves) > 0, len(ss.Leaves) > 0
+		for _, l := range ss.Leaves {
+			if !(l.Kind == "field" && strings.HasSuffix(l.Name, "timelockPolicy.CSV")) {
+				allPolicy = false
+			}
+			if l.Kind != "const" {
+				allConst = false
+			}
+		}
+		for op := range ss.Ops {
+			if !strings.HasPrefix(op, "convert:") {
+				allPolicy = false
+			}
+		}
+		switch {
+		case allPolicy:
+			c.OK("C02.R3", cons, pos, fmt.Sprintf("CSV taken from %v", ss.Names()))
+		case allConst:
+			c.Bad("C02.R3", cons, pos, fmt.Sprintf("OpeningParams.CSV is set to the constant(s) %v for every swap, not to the CSV of the swap's timelock policy (btc 1008, lbtc/v6 60, lbtc/v7 10080 cannot share one constant)", ss.Names()))
+		default:
+			c.Unknown("C02.R3", cons, pos, "cannot tell whether "+t+" is the CSV of the swap's timelock policy")
+		}
 	}
-	c.AtLeast("C02.R3", "production stores to OpeningParams.CSV", nw, 2)
+	c.AtLeast("C02.R3", "production stores to OpeningParams.CSV", nw, 1)
 	// every production OpeningParams literal sets CSV (an omitted field is CSV 0)
 	nl := 0
 	for _, fn := range prodFuncs(w) {
@@ -1096,7 +1241,71 @@ func c02R3(c *an.Check, entry *ssa.Function, paramsIdx, csvIdx int) {
 			}
 		}
 	}
-	c.AtLeast("C02.R3", "production OpeningParams literals", nl, 2)
+	c.AtLeast("C02.R3", "production OpeningParams literals", nl, 1)
+}
+
+// c02PolicyFn finds the timelock table structurally: the static in-module
+// callee whose (first) result's field named CSV is stored into
+// OpeningParams.CSV by production code. nil if there is none or several.
+func c02PolicyFn(w *an.World) *ssa.Function {
+	var found *ssa.Function
+	for _, st := range w.FieldWriters("OpeningParams.CSV") {
+		if an.IsTestSupport(w.FnRel(st.Parent())) {
+			continue
+		}
+		v := st.Val
+		for i := 0; i < 8; i++ {
+			switch x := v.(type) {
+			case *ssa.Convert:
+				v = x.X
+				continue
+			case *ssa.UnOp:
+				if x.Op == token.MUL {
+					v = x.X
+					continue
+				}
+			case *ssa.Field:
+				if strings.HasSuffix(an.FieldName(x.X.Type(), x.Field), ".CSV") {
+					v = x.X
+					continue
+				}
+			case *ssa.FieldAddr:
+				if strings.HasSuffix(an.FieldName(x.X.Type(), x.Field), ".CSV") {
+					v = x.X
+					continue
+				}
+			case *ssa.Alloc:
+				// local holding the policy: the value stored into it
+				if x.Referrers() != nil {
+					for _, r := range *x.Referrers() {
+						if s2, ok := r.(*ssa.Store); ok && s2.Addr == x {
+							v = s2.Val
+						}
+					}
+				}
+				if v != ssa.Value(x) {
+					continue
+				}
+			case *ssa.Extract:
+				v = x.Tuple
+				continue
+			}
+			break
+		}
+		cc, ok := v.(*ssa.Call)
+		if !ok {
+			continue
+		}
+		g := cc.Call.StaticCallee()
+		if g == nil || !w.InModule(g) || g.Blocks == nil {
+			continue
+		}
+		if found != nil && found != g {
+			return nil
+		}
+		found = g
+	}
+	return found
 }
 
 // c02CsvStyle classifies the csv argument of a ParamsToTxScript call.
@@ -1117,11 +1326,11 @@ func c02CsvStyle(w *an.World, call *ssa.Call, arg, params ssa.Value) (style, det
 				if fa.X == params {
 					return "paramsCSV", "csv = CSV field of the OpeningParams passed as first argument"
 				}
-				return "bad", "the csv argument is the CSV field of a different OpeningParams value than the one the keys are taken from"
+				return "unknown", "the csv argument is the CSV field of another SSA value than the OpeningParams the keys are taken from; cannot tell whether both denote the same swap"
 			}
 		}
 	}
-	ss := w.Sources(arg, an.FlowOpts{IntoCallers: true})
+	ss := w.Sources(arg, an.FlowOpts{IntoCallers: true, IntoCallees: true})
 	if len(ss.Leaves) == 0 {
 		return "unknown", "csv argument has no sources"
 	}
